@@ -32,7 +32,14 @@ buffer fills up (label ``waker_buffer_full``).  ``_waker_w`` is wrapped so that 
 thread is the only one that drains, so the ordinary no-runnable-thread rule reports it as a deadlock
 instead of the harness hanging in the kernel.  Handlers consume the readiness
 they are dispatched for (like reading the data) and optionally unregister themselves (one-shot).
-One case in seven closes *before the wrapped loop has run for the first time* (right after construction or
+Handlers may also unregister *another* registration from inside the dispatch (``cross`` rules: another
+fd's reader/writer, or their own fd's other direction); one case in eight is aimed at the situation where
+the removed registration's event sits later in the very same select batch (two readers removing each
+other; one fd readable+writable whose read handler removes the writer), with a third registration made
+ready afterwards.  An exception that escapes a loop callback is recorded the way asyncio's exception
+handler would see it (``C40.exception_in_loop_callback``) and the run goes on, so the lost events that
+follow are observed too.
+One case in eight closes *before the wrapped loop has run for the first time* (right after construction or
 after a few registrations; the selector thread is created lazily by a call_soon'ed task), and in half
 of all cases the wrapped loop keeps running after the shutdown (``run_loop_after_close``): everything
 still queued — possibly the thread start itself — runs to quiescence, then the loop is shut down the
@@ -70,7 +77,7 @@ Sensitivity (quick tier, seed 1, one mutant at a time on a scratch copy; all fou
   * ``close`` without ``_wake_selector()`` ................................ caught (C40.deadlock: join vs select)
   * ``_handle_select`` not restarting the select .......................... caught (C40.lost_event)
   * ``_run_select`` calls ``_handle_select`` directly ...................... caught (C40.callback_off_loop_thread)
-  * ``_run_select`` does not clear ``_select_args`` ........................ caught (crash.AssertionError@_start_select)
+  * ``_run_select`` does not clear ``_select_args`` ........................ caught (C40.exception_in_loop_callback: AssertionError in _start_select)
   * EBADF recovery branch ``continue``s to the top of the thread loop instead of reporting the
     waker-only result (no ``_handle_select``, select never restarted) ..... caught (C40.lost_event, thread
     in cond_wait; seeds 1..3, < 1 s; needs ``remove_close`` between publish and select_enter)
@@ -82,6 +89,11 @@ Sensitivity (quick tier, seed 1, one mutant at a time on a scratch copy; all fou
     the thread started later blocks in select for ever) ................... caught (C40.thread_alive_after_close /
     C40.select_in_progress_after_close, thread parked in ``select``; seeds 1..3, < 1 s; minimal case:
     close right after construction, then the loop runs)
+  * ``_handle_select`` filters the select result once up front and ``_handle_event`` calls ``cb_map[fd]()``
+    unguarded (a handler that unregisters a registration whose event is later in the same batch makes
+    it raise KeyError; ``_start_select`` is skipped and all later readiness is lost) ... caught
+    (C40.exception_in_loop_callback KeyError, followed by C40.lost_event; label
+    ``handler_removed_other_registration``)
   When ``sched`` has found a violation the ``smoke`` part is skipped (with these mutants it would hang
   until its cap and turn the run into exit 2 = inconclusive).
 """
@@ -110,7 +122,7 @@ RULE = (
     "generated schedule of <=80 binary choices (then stay-on-thread or always-switch) x "
     "shutdown path (close / atexit hook / asyncgen aclose; 1/7 of the cases close before the loop's first "
     "iteration; in half of the cases the wrapped loop keeps running after the shutdown) x one-shot "
-    "handlers; the real SelectorThread "
+    "handlers and handlers that unregister other registrations of the same batch; the real SelectorThread "
     "code runs on two real threads serialised by a baton scheduler; non-trivial = the schedule switches "
     "threads >=3 times between a registration change and the next select, or the shutdown lands while "
     "the selector thread is inside select or waiting on the condition; distinct = SHA-1 of the case"
@@ -172,10 +184,18 @@ class FakeLoop:
         if not self.queue:
             return False
         cb, args, context = self.queue.popleft()
-        if context is not None:
-            context.run(cb, *args)
-        else:
-            cb(*args)
+        try:
+            if context is not None:
+                context.run(cb, *args)
+            else:
+                cb(*args)
+        except HarnessError:
+            raise
+        except Exception as e:  # noqa: BLE001
+            # asyncio would hand this to the loop's exception handler and go on; the harness's own
+            # handlers never raise, so an exception here comes out of the code under test
+            self.env.problem("C40.exception_in_loop_callback",
+                             {"callback": getattr(cb, "__name__", repr(cb))[:60], "exception": repr(e)[:200]})
         return True
 
 
@@ -220,6 +240,7 @@ class Env:
         self.readable = {fd: False for fd in FDS}
         self.writable = {fd: False for fd in FDS}
         self.oneshot = set()
+        self.cross = []  # (src fd idx, "r"|"w", target fd idx, "r"|"w")
         self.closed = set()  # virtual fds closed by the actor (after removing them)
         self.ebadf = 0
         self.dispatches_after_ebadf = 0
@@ -286,12 +307,23 @@ class Env:
         self.readable[fd] = False
         if fd in self.oneshot:
             self.probe.remove_reader(fd)
+        self._cross_remove("r", fd)
 
     def on_write(self, fd):
         self._dispatched("w", fd)
         self.writable[fd] = False
         if fd in self.oneshot:
             self.probe.remove_writer(fd)
+        self._cross_remove("w", fd)
+
+    def _cross_remove(self, kind, fd):
+        """A handler that unregisters ANOTHER registration (another fd's, or its own fd's other
+        direction) — possibly one whose event sits later in the very batch being dispatched."""
+        for src, src_kind, tgt, tgt_kind in self.cross:
+            if FDS[src] == fd and src_kind == kind:
+                removed = self.probe.remove_reader(FDS[tgt]) if tgt_kind == "r" else self.probe.remove_writer(FDS[tgt])
+                if removed:
+                    self.labels.add("handler_removed_other_registration")
 
     def _dispatched(self, kind, fd):
         self.dispatches.append((kind, fd))
@@ -344,6 +376,7 @@ def run_sched_case(ctx, case):
     sched = Sched(case["schedule"], tail_policy=case["tail_policy"])
     env = Env(sched)
     env.oneshot = {FDS[i] for i in case["oneshot"]}
+    env.cross = [tuple(r) for r in case.get("cross", [])]
     saved = (pa.threading, pa.select, pa._selector_loops)
     pa.threading = Shim(real_threading, Thread=sched.Thread, Condition=sched.Condition)
     pa.select = Shim(real_select, select=env.fake_select)
@@ -676,6 +709,37 @@ def _ebadf_program(draw):
     return head + body + draw(st.lists(_op, max_size=3))
 
 
+_cross_rule = st.tuples(_fd, st.sampled_from(["r", "r", "w"]), _fd, st.sampled_from(["r", "r", "w"]))
+
+
+@st.composite
+def _cross_case(draw):
+    """Aimed at 'a handler unregisters a registration whose event is later in the same select batch':
+    two registrations become ready before the select that first contains them returns, their handlers
+    remove each other (or the read handler removes its own fd's writer); a third registration c is made
+    ready afterwards and must still be dispatched."""
+    a, b, c = draw(st.permutations([0, 1, 2]))
+    runs = lambda lo, hi: [("run",)] * draw(st.integers(lo, hi))  # noqa: E731
+    if draw(st.booleans()):
+        setup = [("ready", a), ("ready", b), ("add_reader", a), ("add_reader", b)]
+        cross = [(a, "r", b, "r"), (b, "r", a, "r")]
+    else:
+        setup = [("ready", a), ("writable", a), ("add_reader", a), ("add_writer", a)]
+        cross = [(a, "r", a, "w")] + ([(a, "w", a, "r")] if draw(st.booleans()) else [])
+    program = list(draw(st.permutations(setup))) + runs(1, 4)
+    program += list(draw(st.permutations([("add_reader", c), ("ready", c)] + runs(0, 2)))) + draw(st.lists(_op, max_size=3))
+    return {
+        "program": program,
+        "start_first": draw(st.booleans()),
+        "tail_policy": draw(st.sampled_from(["stay", "switch"])),
+        "schedule": draw(st.lists(st.integers(0, 1), max_size=60)),
+        "shutdown": draw(st.sampled_from(["close", "atexit", "aclose"])),
+        "oneshot": [],
+        "cross": cross + draw(st.lists(_cross_rule, max_size=1)),
+        "run_loop_after_close": draw(st.booleans()),
+    }
+
+
 _no_run_op = st.one_of(
     *_w(st.tuples(st.just("add_reader"), _fd), 3),
     st.tuples(st.just("add_writer"), _fd),
@@ -694,6 +758,7 @@ _general_case_s = st.fixed_dictionaries({
     "schedule": st.lists(st.integers(0, 1), max_size=80),
     "shutdown": st.sampled_from(["close", "close", "atexit", "aclose"]),
     "oneshot": st.lists(_fd, max_size=2, unique=True),
+    "cross": st.one_of(st.just([]), st.just([]), st.lists(_cross_rule, min_size=1, max_size=3)),
     "run_loop_after_close": st.booleans(),
 })
 _early_close_case_s = st.fixed_dictionaries({
@@ -705,7 +770,7 @@ _early_close_case_s = st.fixed_dictionaries({
     "oneshot": st.just([]),
     "run_loop_after_close": st.just(True),
 })
-sched_case_s = st.one_of(*_w(_general_case_s, 6), _early_close_case_s)
+sched_case_s = st.one_of(*_w(_general_case_s, 6), _early_close_case_s, _cross_case())
 
 _smoke_op = st.one_of(
     st.tuples(st.just("add"), _fd),
